@@ -47,6 +47,26 @@ type c13Scenario struct {
 	// first '}' (bisyncRdbTargetKey, by design), the incremental lane queues the source's key names
 	// as they are; the tool's own bookkeeping keys keep their {slot tag} in both lanes.
 	HashTag bool `json:"replace_hash_tag,omitempty"`
+	// CmdBlacklist: filter.commandBlacklist (config.FilterConfig.CmdBlacklist) of the links named by
+	// CmdListOn (bit 0 = link A->B, bit 1 = link B->A). The names are taken from the commands the
+	// tool's own marker / record / index / checkpoint traffic shows up as in a site's propagation
+	// stream, so that the list removes bookkeeping commands next to client commands of that name.
+	CmdBlacklist []string `json:"cmd_blacklist,omitempty"`
+	CmdListOn    int      `json:"cmd_list_on,omitempty"`
+}
+
+// c13CmdListed reports whether link li (0 = A->B, 1 = B->A) runs with a command black list that
+// names cmd (case-insensitive, as RedisOutput inserts the list).
+func c13CmdListed(scn c13Scenario, li int, cmd string) bool {
+	if scn.CmdListOn&(1<<uint(li)) == 0 {
+		return false
+	}
+	for _, b := range scn.CmdBlacklist {
+		if strings.EqualFold(b, cmd) {
+			return true
+		}
+	}
+	return false
 }
 
 // c13TargetKey is the reference for the key a snapshot entry is stored under at the target.
@@ -533,11 +553,18 @@ func c13ExecPlan(t *testing.T, scn c13Scenario, ch *mc.Chooser) (res mc.Result, 
 			if scn.Snap == nil {
 				l.released = len(l.from.srv.ReplBytes())
 				l.s0 = 1000 + int64(l.released)
-				if scn.Whitelist || scn.HashTag {
+				if scn.Whitelist || scn.HashTag || scn.CmdListOn&(1<<uint(li)) != 0 {
 					wl, ht := scn.Whitelist, scn.HashTag
+					var bl []string
+					if scn.CmdListOn&(1<<uint(li)) != 0 {
+						bl = append(bl, scn.CmdBlacklist...)
+					}
 					biBootCfgHook = func(c *RedisOutputConfig) {
 						if wl {
 							c.Filter = config.FilterConfig{KeyFilter: &config.FilterKeyConfig{PrefixKeyWhitelist: []string{"k", "t", "h", "user", "nokey"}}}
+						}
+						if len(bl) > 0 {
+							c.Filter.CmdBlacklist = bl
 						}
 						c.ReplaceHashTag = ht
 					}
@@ -701,6 +728,13 @@ func c13ExecPlan(t *testing.T, scn c13Scenario, ch *mc.Chooser) (res mc.Result, 
 				if c.Conn != l.from.cliID {
 					continue
 				}
+				if c13CmdListed(scn, li, n) {
+					// a configured-out command: the link's command black list names it, so the link
+					// does not replay it (reference: the list applies to the command names of the
+					// source's propagation stream); its absence at the target is not 'swallowing',
+					// its presence would be reported as applied-but-not-expected
+					continue
+				}
 				want = append(want, c)
 			}
 			var got []*redisd.Req
@@ -821,6 +855,11 @@ func c13ExecPlan(t *testing.T, scn c13Scenario, ch *mc.Chooser) (res mc.Result, 
 	})
 	if msg != "" {
 		return mc.Result{Verdict: "machinery", Clause: "bubble: " + msg}, seen, hit
+	}
+	if res.Verdict == "violation" && scn.CmdListOn != 0 {
+		// command-list family: the signature names the black-listed command names and the links
+		res.Sig += fmt.Sprintf(":cmd-blacklist[%s]@%s", strings.Join(scn.CmdBlacklist, ","), map[int]string{1: "A->B", 2: "B->A", 3: "both"}[scn.CmdListOn])
+		res.Clause += " (links run with filter.commandBlacklist naming a command the tool's own bookkeeping traffic uses)"
 	}
 	return res, seen, hit
 }
@@ -1200,6 +1239,50 @@ func runC13(t *testing.T, rep *mc.Reporter) {
 				}
 				scn := c13Scenario{Writes: ws, Cfg: m, WrapSingle: wrap, Whitelist: true}
 				mc.RunScenario(rep, scn, bound, budget, func(ch *mc.Chooser) mc.Result { return c13Exec(t, scn, ch) })
+			}
+		}
+	}
+	// ---- command-list family: filter.commandBlacklist on one link / on both links names a command
+	// the tool's own traffic appears as in a site's propagation stream: SET (marker), HSET (latest /
+	// rdb record, checkpoint hash), DEL / UNLINK (lazy deletion of an expired marker in front of the
+	// new one, record clean-up), ZADD / ZREM / HDEL (commit index, checkpoint fields), EXPIRE /
+	// PEXPIRE / PEXPIREAT (record expiry). The list removes client commands of that name too: those
+	// are configured-out (not expected at the target, see c13CmdListed); everything else must still
+	// arrive exactly once and the exchange must quiesce. (config.FilterConfig has no command WHITE
+	// list at HEAD - RedisKeyFilter.InsertCmdWhiteList has no caller - so none is enumerated.)
+	cmdLists := [][]string{{"set"}, {"del", "unlink"}, {"hset"}, {"expire", "pexpire", "pexpireat"}, {"zadd", "zrem", "hdel"}}
+	cmdOn := []int{2, 3}
+	cwrites := [][]c13Write{{{0, "hset"}}, {{0, "set"}}, {{0, "txn1"}}, {{0, "expire"}}, {{0, "hset"}, {1, "txn1"}}, {{0, "txn"}, {1, "set"}}, {{0, "set"}, {0, "idle25h"}, {0, "set"}}}
+	if tier == "thorough" {
+		cmdLists = append(cmdLists, []string{"set", "hset", "del", "unlink", "zadd", "zrem", "hdel", "expire", "pexpire", "pexpireat"}, []string{"SET"})
+		cmdOn = []int{1, 2, 3}
+		cwrites = nil
+		for _, s1 := range full {
+			cwrites = append(cwrites, []c13Write{{0, s1}})
+		}
+		for _, s1 := range []string{"set", "hset", "txn1"} {
+			for _, s2 := range []string{"set", "hset", "txn1"} {
+				cwrites = append(cwrites, []c13Write{{0, s1}, {0, s2}}, []c13Write{{0, s1}, {1, s2}})
+			}
+		}
+		cwrites = append(cwrites, []c13Write{{0, "set"}, {0, "idle25h"}, {0, "set"}}, []c13Write{{0, "txn"}, {0, "idle25h"}, {1, "txn"}})
+	}
+	if !fam("cmdlist") {
+		cwrites = nil
+	}
+	for _, ws := range cwrites {
+		for _, bl := range cmdLists {
+			for _, on := range cmdOn {
+				for _, m := range modes {
+					for _, wrap := range []bool{false, true} {
+						idx++
+						if idx%nshards != shard || budget.Expired() {
+							continue
+						}
+						scn := c13Scenario{Writes: ws, Cfg: m, WrapSingle: wrap, CmdBlacklist: bl, CmdListOn: on}
+						mc.RunScenario(rep, scn, bound, budget, func(ch *mc.Chooser) mc.Result { return c13Exec(t, scn, ch) })
+					}
+				}
 			}
 		}
 	}
